@@ -43,6 +43,8 @@ type HTTPProxy struct {
 
 	l *Listener
 	s *http.Server
+	// connections handled by Handle itself (not yet handed to s, or CONNECT tunnels)
+	conns *connTracker
 }
 
 func NewHTTPProxyPlugin(_ PluginContext, options v1.ClientPluginOptions) (Plugin, error) {
@@ -50,8 +52,9 @@ func NewHTTPProxyPlugin(_ PluginContext, options v1.ClientPluginOptions) (Plugin
 	listener := NewProxyListener()
 
 	hp := &HTTPProxy{
-		l:    listener,
-		opts: opts,
+		l:     listener,
+		opts:  opts,
+		conns: newConnTracker(),
 	}
 
 	hp.s = &http.Server{
@@ -71,6 +74,10 @@ func (hp *HTTPProxy) Name() string {
 
 func (hp *HTTPProxy) Handle(_ context.Context, connInfo *ConnectionInfo) {
 	wrapConn := netpkg.WrapReadWriteCloserToConn(connInfo.Conn, connInfo.UnderlyingConn)
+	if !hp.conns.Add(wrapConn) {
+		return
+	}
+	defer hp.conns.Remove(wrapConn)
 
 	sc, rd := libnet.NewSharedConn(wrapConn)
 	firstBytes := make([]byte, 7)
@@ -91,12 +98,15 @@ func (hp *HTTPProxy) Handle(_ context.Context, connInfo *ConnectionInfo) {
 		return
 	}
 
-	_ = hp.l.PutConn(sc)
+	if err := hp.l.PutConn(sc); err != nil {
+		wrapConn.Close()
+	}
 }
 
 func (hp *HTTPProxy) Close() error {
 	hp.s.Close()
 	hp.l.Close()
+	hp.conns.CloseAll()
 	return nil
 }
 
